@@ -21,6 +21,20 @@ CHECKS = {
             "loop-level index formula; index maps are value-oblivious, so the scope covers every path.",
             "Trusted: mc/refmodel.py permute/reshape_f/squeeze loops; arrays <= 24 cells, order <= 4 (5 for permute).",
             TECH_PRODUCT, "DESIGN.md §6 C07"),
+    "C03": ("The left sparse operand ranges over ALL arrays over the value alphabet {0,2,-3} on every 4-cell shape "
+            "(thorough: 6 cells complete, 8 cells all zero patterns), the right operand over all such arrays held sparse "
+            "and dense plus seven scalars; all 13 binary, 2 reflected and 9 unary operators are applied and the expanded "
+            "result compared position by position (NaN/inf included) with NumPy on the expanded operands.  The operators "
+            "branch only on the joint zero pattern, signs and entry counts, all enumerated completely in this scope.",
+            "Trusted: NumPy element-wise semantics; F-sorted stored order here (orders are C06). Two upstream-pinned "
+            "division conventions are recorded as known findings, identified by the exact per-cell deviation signature.",
+            TECH_PRODUCT, "DESIGN.md §6 C03"),
+    "C16": ("Every double of a 20k/133k-value alphabet (every binary exponent x mantissa patterns x sign) is swept through "
+            "each carrier (dense, sparse values, Kruskal factors/weights, matrix), every shape <= 24/48 cells, all sparse "
+            "patterns and stored orders, both index bases; export_data -> import_data must reproduce type, shape, bits and "
+            "order, and the written text must parse under an independent reference grammar.",
+            "Trusted: reference .tns printer/parser inside mc/props/C16.py; only the listed mantissa patterns.",
+            TECH_PRODUCT, "DESIGN.md §6 C16"),
 }
 PENDING = {f"C{i:02d}": "check not built yet in this phase (planned, see DESIGN.md §6)" for i in range(1, 21) if f"C{i:02d}" not in CHECKS}
 NOT_APPLICABLE = {}
